@@ -770,3 +770,48 @@ Proof.
   - left. now apply (option_eqb_eq _ ty_eqb_eq).
   - destruct a as [t|], b as [t'|]; try discriminate. right. exists t, t'. repeat split. now apply rty_b_sound.
 Qed.
+
+(* ------------------------------------------------------------------ every depth, at HUGR level *)
+Lemma resolve_op_deep reg o : RegWF reg -> op_loaded o = true -> op_clean reg (resolve_op reg o) = true.
+Proof.
+  intros Hwf. destruct o as [c|x|k]; cbn [resolve_op op_loaded]; try discriminate; [|reflexivity].
+  rewrite !andb_true_iff. intros [[Hi Ho] Ha]. unfold resolve_custom.
+  destruct (lookup_op reg (c_ext c) (c_name c)) as [d|]; [|reflexivity].
+  cbn [op_clean x_sig x_args resolve_ft ft_in ft_out]. rewrite !forallb_map, !andb_true_iff.
+  repeat split; apply forallb_forall; intros t Ht.
+  - apply resolve_deep; auto. rewrite forallb_forall in Hi. auto.
+  - apply resolve_deep; auto. rewrite forallb_forall in Ho. auto.
+  - apply resolve_arg_deep; auto. rewrite forallb_forall in Ha. auto.
+Qed.
+Lemma hugr_all_map p (f : hop -> hop) ns :
+  forallb (fun x : option nodeT => match x with Some n => hop_all p (n_op n) | None => true end)
+          (map (option_map (map_node f)) ns) =
+  forallb (fun x : option nodeT => match x with Some n => hop_all p (f (n_op n)) | None => true end) ns.
+Proof. induction ns as [|[n|] l IH]; cbn; [reflexivity| |]; now rewrite IH. Qed.
+Lemma resolve_hop_deep_both reg : RegWF reg ->
+  (forall o, hop_all op_loaded o = true -> hop_all (op_clean reg) (resolve_hop reg o) = true) /\
+  (forall v, cval_all op_loaded v = true -> cval_all (op_clean reg) (resolve_val reg v) = true).
+Proof.
+  intros Hwf. apply hop_both_ind.
+  - intros o H. cbn in *. now apply resolve_op_deep.
+  - reflexivity.
+  - intros v IH H. cbn [resolve_hop hop_all] in *. auto.
+  - intros b IH H. cbn [resolve_val]. rewrite cval_all_func in *. cbn [map_hugr h_nodes]. rewrite hugr_all_map.
+    rewrite forallb_Forall in *. eapply Forall_impl2; [|exact IH|exact H]. intros [n|]; cbn; auto.
+  - intros k vs IH H. cbn [resolve_val]. rewrite cval_all_sum in *. rewrite forallb_map.
+    rewrite forallb_Forall in *. eapply Forall_impl2; [|exact IH|exact H]. auto.
+  - reflexivity.
+Qed.
+Lemma hugr_reaches_every_depth_thm : forall reg, RegWF reg ->
+  (forall h, hugr_all op_loaded h = true -> hugr_all (op_clean reg) (resolve_extensions reg h) = true) /\
+  (forall o, op_loaded o = true -> op_clean reg (resolve_op reg o) = true).
+Proof.
+  intros reg Hwf. split; [|intros o; now apply resolve_op_deep].
+  intros h H. rewrite resolve_extensions_map. unfold hugr_all in *. cbn [map_hugr h_nodes]. rewrite hugr_all_map.
+  rewrite forallb_Forall in *. eapply Forall_impl; [|exact H]. intros [n|]; cbn; [|trivial].
+  now apply resolve_hop_deep_both.
+Qed.
+
+(* the body of a function value is resolved by the same loop *)
+Lemma resolve_val_func_loop reg b : resolve_val reg (VFunc b) = VFunc (resolve_extensions reg b).
+Proof. cbn [resolve_val]. now rewrite resolve_extensions_map. Qed.
